@@ -17,6 +17,7 @@ import (
 	"github.com/IrineSistiana/mosdns/v5/pkg/upstream"
 	"github.com/IrineSistiana/mosdns/v5/pkg/utils"
 	"github.com/miekg/dns"
+	"github.com/quic-go/quic-go"
 	"pgregory.net/rapid"
 
 	"verif/harness/hx"
@@ -28,9 +29,9 @@ func TestMain(m *testing.M) { hx.Main(m) }
 // ---------------------------------------------------------------- observers
 
 type connect struct {
-	host string
-	port int
-	sni  string
+	host   string
+	port   int
+	sni    string
 	hasSNI bool
 }
 
@@ -153,8 +154,44 @@ type sink struct {
 	port int
 	c    *net.UDPConn
 	got  chan struct{}
-	tcp  net.Listener  // truncate mode: the TCP side of the same host:port
-	tcpc chan struct{} // a TCP connection arrived there
+	tcp  net.Listener   // truncate mode: the TCP side of the same host:port
+	tcpc chan struct{}  // a TCP connection arrived there
+	ql   *quic.Listener // quic mode: a QUIC listener instead of a raw socket; the ClientHello's server name is recorded
+	sni  chan string
+}
+
+// bindQuicSink listens for QUIC on host:port; every ClientHello that arrives is reported with its server name.
+func bindQuicSink(host string, port int) (*sink, error) {
+	certOnce.Do(func() { theCert, certErr = utils.GenerateCertificate("c18.test") })
+	if certErr != nil {
+		return nil, certErr
+	}
+	s := &sink{host: host, got: make(chan struct{}, 1), sni: make(chan string, 8)}
+	conf := &tls.Config{GetConfigForClient: func(h *tls.ClientHelloInfo) (*tls.Config, error) {
+		select {
+		case s.sni <- h.ServerName:
+		default:
+		}
+		select {
+		case s.got <- struct{}{}:
+		default:
+		}
+		return &tls.Config{Certificates: []tls.Certificate{theCert}, NextProtos: []string{"doq", "h3"}}, nil
+	}}
+	ln, err := quic.ListenAddr(net.JoinHostPort(host, strconv.Itoa(port)), conf, nil)
+	if err != nil {
+		return nil, err
+	}
+	s.ql = ln
+	s.port = ln.Addr().(*net.UDPAddr).Port
+	go func() {
+		for {
+			if _, err := ln.Accept(context.Background()); err != nil {
+				return
+			}
+		}
+	}()
+	return s, nil
 }
 
 // bindSink binds the UDP socket of one case. With truncate set every DNS query is answered with a TC reply and a TCP
@@ -214,6 +251,10 @@ func bindSink(host string, port int, truncate bool) (*sink, error) {
 }
 
 func (s *sink) Close() {
+	if s.ql != nil {
+		s.ql.Close()
+		return
+	}
 	s.c.Close()
 	if s.tcp != nil {
 		s.tcp.Close()
@@ -270,21 +311,22 @@ func bootAddr() string {
 // ---------------------------------------------------------------- generator
 
 type Case struct {
-	Scheme   string `json:"scheme"`    // "", udp, tcp, tcp+pipeline, tls, tls+pipeline, https, h3, quic
-	Host     string `json:"host"`      // as written in the URL (IPv6 in brackets or bare)
-	HostKind string `json:"host_kind"` // v4 | v6br | v6bare | name
-	Port     int    `json:"port"`      // 0 = not written
-	DialAddr string `json:"dial_addr"`
-	DialHost string `json:"dial_host"` // expected host from dial_addr ("" = none)
-	DialPort int    `json:"dial_port"`
-	Path     string `json:"path"`
-	Sink            int  `json:"sink"` // udp-based: index into loopHosts of the address the sink is bound on (-1 otherwise)
-	SinkDefaultPort bool `json:"sink_default_port"`
-	ViaDial         bool `json:"via_dial"`  // the URL names something else, dial_addr points at the sink
-	OmitPort        bool `json:"omit_port"` // leave the port out where the scheme default applies
-	Bootstrap       bool `json:"bootstrap"` // hostname resolved through a (harness) bootstrap server; destination = a TCP listener bound for the case
-	Truncate        bool `json:"truncate"`  // plain udp: the sink answers TC, the retry over TCP must reach the same host:port
-	Prior           bool `json:"prior"`     // TLS-based: another upstream (different host name) was created before from the same caller-supplied tls.Config
+	Scheme          string `json:"scheme"`    // "", udp, tcp, tcp+pipeline, tls, tls+pipeline, https, h3, quic
+	Host            string `json:"host"`      // as written in the URL (IPv6 in brackets or bare)
+	HostKind        string `json:"host_kind"` // v4 | v6br | v6bare | name
+	Port            int    `json:"port"`      // 0 = not written
+	DialAddr        string `json:"dial_addr"`
+	DialHost        string `json:"dial_host"` // expected host from dial_addr ("" = none)
+	DialPort        int    `json:"dial_port"`
+	Path            string `json:"path"`
+	Sink            int    `json:"sink"` // udp-based: index into loopHosts of the address the sink is bound on (-1 otherwise)
+	SinkDefaultPort bool   `json:"sink_default_port"`
+	ViaDial         bool   `json:"via_dial"`  // the URL names something else, dial_addr points at the sink
+	OmitPort        bool   `json:"omit_port"` // leave the port out where the scheme default applies
+	Bootstrap       bool   `json:"bootstrap"` // hostname resolved through a (harness) bootstrap server; destination = a TCP listener bound for the case
+	Truncate        bool   `json:"truncate"`  // plain udp: the sink answers TC, the retry over TCP must reach the same host:port
+	QuicSNI         bool   `json:"quic_sni"`  // quic/h3 via dial_addr with a host name in the URL: the destination is a QUIC listener that records the ClientHello's server name
+	Prior           bool   `json:"prior"`     // TLS-based: another upstream (different host name) was created before from the same caller-supplied tls.Config
 }
 
 var loopHosts = []string{"127.0.0.1", "127.0.0.2", "127.1.2.15", "::1"}
@@ -316,6 +358,7 @@ func genCase(t *rapid.T) Case {
 		}
 		if c.ViaDial && (c.Scheme == "h3" || c.Scheme == "quic") {
 			c.Host, c.HostKind = names[rapid.IntRange(0, len(names)-1).Draw(t, "uname")], "name"
+			c.QuicSNI = rapid.Bool().Draw(t, "quicSNI")
 		}
 		return c
 	}
@@ -422,7 +465,11 @@ func runCase(c Case, ctx *hx.Ctx) *hx.Failure {
 			port = def
 		}
 		var err error
-		sk, err = bindSink(loopHosts[c.Sink], port, c.Truncate)
+		if c.QuicSNI {
+			sk, err = bindQuicSink(loopHosts[c.Sink], port)
+		} else {
+			sk, err = bindSink(loopHosts[c.Sink], port, c.Truncate)
+		}
 		if err != nil {
 			ctx.Class("skipped:cannot-bind-sink")
 			return nil
@@ -561,6 +608,17 @@ func runCase(c Case, ctx *hx.Ctx) *hx.Failure {
 		case <-sk.got:
 		case <-time.After(2500 * time.Millisecond):
 			return hx.Failf("C18/wrong-destination", "NewUpstream(%q, dial_addr=%q): no datagram reached the configured destination %s:%d within 2.5 s", addr, c.DialAddr, sk.host, sk.port)
+		}
+		if c.QuicSNI {
+			select {
+			case name := <-sk.sni:
+				if name != urlHost {
+					return hx.Failf("C18/wrong-server-name", "NewUpstream(%q, dial_addr=%q): the QUIC ClientHello carries server name %q, URL host is %q", addr, c.DialAddr, name, urlHost)
+				}
+				ctx.Class("quic-server-name-checked")
+			default:
+				return hx.Failf("C18/harness", "ClientHello seen but no server name recorded")
+			}
 		}
 		if c.Truncate {
 			// the reply was truncated: the same query goes out over TCP, to the same host and port
